@@ -1,7 +1,7 @@
 """C11 — field-layout validation accepts exactly the well-formed layouts."""
 import json, os, random, collections
 import vlib, adef
-from checks import gen_common
+from checks import gen_common, pipeline_common
 
 RULE = ("boundary-biased register/command layouts (touching, nested, crossing, empty, reversed, one-past ranges; bool "
         "forms; overlap flag; byte order at object/global/nowhere; sizes around 8; nesting in blocks) rendered as DSL "
@@ -138,6 +138,10 @@ def run(ctx):
         if impl != m:
             diffs.append((cid, impl, m))
     acc = hist["ok"] / max(1, len(cases))
+    # whole-pipeline phase (Pipeline.v): only disagreements attributable to the layout passes are C11's
+    vlib.coq_build(["theories/Pipeline.vo"])
+    phase = pipeline_common.run_pipeline_phase(ctx, exe, 300 if ctx.tier == "quick" else 4000, 11)
+    npipe = pipeline_common.report(ctx, phase, "C11") if not diffs else 0
     if diffs:
         diffs.sort(key=lambda d: len(cases[int(d[0][1:])]["text"]))
         cid, impl, m = diffs[0]
@@ -146,7 +150,7 @@ def run(ctx):
                              "failing_input": {"syntax": c["syntax"], "text": c["text"], "adef": defs[cid][0]},
                              "implementation": impl, "model_and_spec": m, "message": res[cid].get("message"),
                              "disagreements": len(diffs)})
-    elif not info["ok"]:
+    elif not info["ok"] and not npipe:
         vlib.violation(ctx, {"broken": info["reason"], "theorem": "props/C11.v"}, no_input=True)
     if not (0.15 <= acc <= 0.9):
         ctx.log(f"warning: accepted ratio {acc:.2f} outside the sanity band")
@@ -154,7 +158,8 @@ def run(ctx):
                 "model": model.get(cases[i]["id"])} for i in (0, 1, len(cases) // 2)]
     vlib.write_evidence(ctx, info, {"evaluations": len(cases), "distinct_nontrivial": len(distinct), "rule": RULE,
                                     "samples": samples, "input_distribution": dict(hist), "accepted_ratio": round(acc, 3),
-                                    "disagreements": len(diffs)})
+                                    "disagreements": len(diffs) + npipe,
+                                    "pipeline_phase": {"evaluations": phase["evaluations"], "histogram": phase["histogram"], "rule": phase["rule"]}})
 
 
 def replay(ctx, path):
